@@ -57,6 +57,12 @@ func execKeys(c *ctx, in ev) []ev {
 			out["un_rsa_n"], out["un_rsa_e"] = B(k2.N.Bytes()), B(beInt(k2.E))
 		}
 		return []ev{out}
+	case "IssuerPair": // type-2 / type-3 issuers whose keys share the modulus and differ in the public exponent, one after the other
+		out := []ev{}
+		for _, e := range gL(in, "es") {
+			out = append(out, execKeys(c, ev{"op": "KeyId", "kind": in["kind"], "name": "rsa", "rsa": in["rsa"], "e_override": e})...)
+		}
+		return out
 	case "SpkiPair": // the same modulus with several exponents, one after the other
 		out := []ev{}
 		for _, e := range gL(in, "es") {
@@ -116,6 +122,9 @@ func execKeys(c *ctx, in ev) []ev {
 			trunc = int(st.Request().TokenKeyID)
 		case "t2":
 			key := rsaKey(gI(in, "rsa"))
+			if eo := gB(in, "e_override"); len(eo) > 0 { // the same modulus under another public exponent: another key
+				key = &rsa.PrivateKey{PublicKey: rsa.PublicKey{N: key.N, E: int(new(big.Int).SetBytes(eo).Int64())}, D: key.D, Primes: key.Primes}
+			}
 			iss := type2.NewBasicPublicIssuer(key)
 			pub, _ = util.MarshalTokenKeyPSSOID(iss.TokenKey())
 			keyID = iss.TokenKeyID()
@@ -175,6 +184,7 @@ func genKeys(c *ctx, emit func(ev)) {
 	for i := 0; i < 4; i++ {
 		k := rsaKey(i)
 		emit(ev{"op": "Spki", "n": B(k.N.Bytes()), "e": B(beInt(k.E))})
+		emit(ev{"op": "IssuerPair", "kind": "t2", "rsa": i, "es": []any{B([]byte{1, 0, 1}), B([]byte{3}), B([]byte{1, 0, 1}), B([]byte{17})}})
 		emit(ev{"op": "SpkiPair", "n": B(k.N.Bytes()), "es": []any{B([]byte{1, 0, 1}), B([]byte{3}), B([]byte{1, 0, 1}), B([]byte{0x7f, 0xff, 0xff, 0xff}),
 			// exponents at and above 2^31 (an int is 64 bits wide): the DER integer grows a sign octet at 2^31, 2^39, ...
 			B([]byte{0x80, 0, 0, 0}), B([]byte{1, 0, 0, 0, 1}), B([]byte{0xff, 0xff, 0xff, 0xff}), B([]byte{0x7f, 0xff, 0xff, 0xff, 0xff, 0xff, 0xff, 0xff})}})
